@@ -112,6 +112,7 @@ func (s *sinkSet) drain() (out []seenDgram) {
 		if err != nil {
 			continue
 		}
+		k.conn.SetReadDeadline(time.Time{}) // an expired deadline of an earlier stream would keep RawConn.Read from running the function at all
 		for {
 			n := -1
 			rc.Read(func(fd uintptr) bool {
